@@ -276,6 +276,34 @@ def other_observations(tier):
                             '_vec': {'kind': kind, 'route': 'cli --version 7', 'opts': sorted(kw)}})
             finally:
                 shutil.rmtree(tmp, ignore_errors=True)
+    # a stream that already holds data (a header, an earlier symbol): what save() appends equals the file written by name - also for
+    # encodings that start with a byte order mark
+    for enc in ('utf-8', 'utf-16', 'utf-8-sig', 'utf-32', 'utf-16-le', None, 'iso-8859-1'):
+        for kind in ('svg', 'txt', 'eps'):
+            if kind != 'svg' and enc not in ('utf-8',):
+                continue
+            kw = {'encoding': enc} if kind == 'svg' else {}
+            tmp = tempfile.mkdtemp(prefix='c12s_', dir=work)
+            try:
+                pth = os.path.join(tmp, 'out.' + kind)
+                try:
+                    qr.save(pth, **kw)
+                    ref = digest(normalise(kind, open(pth, 'rb').read() * 2))
+                except Exception as e:  # noqa
+                    ref = failure(e)
+                try:
+                    buf = io.BytesIO() if kind in BINARY else io.StringIO()
+                    buf.write(b'HEADER' if kind in BINARY else 'HEADER')
+                    qr.save(buf, kind=kind, **kw)
+                    qr.save(buf, kind=kind, **kw)
+                    data = buf.getvalue()[6:]
+                    got = digest(normalise(kind, data if isinstance(data, bytes) else data.encode('utf-8')))
+                except Exception as e:  # noqa
+                    got = failure(e)
+                obs.append({'family': 'route', 'kind': kind, 'route': 'stream', 'opts': sorted(kw), 'ref_given': sorted(kw), 'ref_forced': [], 'prefix_ok': True,
+                            'exit': 0, 'got': got, 'ref': ref, '_vec': {'kind': kind, 'route': f'stream holding data, twice, encoding={enc!r}', 'opts': sorted(kw)}})
+            finally:
+                shutil.rmtree(tmp, ignore_errors=True)
     # falsy flag values on the command line (0, empty string): they are values, not "flag absent"
     for kind, flags, kw in (('svg', ['--title', ''], {'title': ''}), ('svg', ['--desc', ''], {'desc': ''}), ('svg', ['--svgid', ''], {'svgid': ''}),
                             ('svg', ['--svgclass', ''], {'svgclass': ''}), ('svg', ['--lineclass', ''], {'lineclass': ''}), ('svg', ['--border', '0'], {'border': 0}),
